@@ -1119,6 +1119,10 @@ func (u *Unit) loopEnv(f *Frame, st *State, fn *ssa.Function, header int) *SpecE
 	}
 	best := map[string]cand{}
 	limit, hasLimit := f.loopLimit[header]
+	if !hasLimit && header < 0 && f.envPos.IsValid() {
+		// environment at a program point (call site, return): only variables declared before it
+		limit, hasLimit = f.envPos, true
+	}
 	for a, c := range f.cells {
 		if c.name == "" {
 			continue
